@@ -73,9 +73,15 @@ Text == /\ CanContent
         /\ LET w == IF InDiscard THEN <<100>> \o Digit ELSE IF InMath THEN <<120>> \o Digit ELSE <<97>> IN
            Write(w, AddChild(N("chars", w, <<>>, <<>>, <<>>)), "text")
         /\ mk' = IF InMath \/ InDiscard THEN mk + 1 ELSE mk
-(* "[a]" written as plain text (not an argument): only where no optional-argument group is open *)
+(* "[a]" written as plain text (not an argument): where no optional-argument group is open, or where a brace  *)
+(* group (a group or a braced argument) opened inside the innermost optional argument protects the brackets,    *)
+(* as in LaTeX: \section[\textbf{[a]}]{T}                                                                        *)
+BracketProtected == LET opts == { i \in 1..Len(stk) : stk[i].k = "optgroup" } IN
+                    IF opts = {} THEN TRUE
+                    ELSE LET i == CHOOSE k \in opts : \A m \in opts : m <= k IN
+                         \E j \in (i + 1)..Len(stk) : stk[j].k \in {"group", "arggroup"}
 BracketText == /\ "bracket" \in Features /\ CanContent /\ ~InMath
-               /\ \A i \in 1..Len(stk) : stk[i].k # "optgroup"
+               /\ BracketProtected
                /\ Write(<<91, 97, 93>>, AddChild(N("chars", <<91, 97, 93>>, <<>>, <<>>, <<>>)), "sym") /\ UNCHANGED mk
 Space == /\ "space" \in Features /\ last \notin {"space", "start"}
          /\ src' = src \o <<32>> /\ last' = "space" /\ forbidnow' = {}
